@@ -6,6 +6,7 @@ import (
 	"fmt"
 	"math/rand"
 	"os"
+	"strings"
 )
 
 func main() {
@@ -18,6 +19,7 @@ func main() {
 	seed := fs.Int64("seed", 1, "PRNG seed")
 	n := fs.Int("n", 100, "number of cases")
 	profile := fs.String("profile", "default", "generator profile")
+	start := fs.Int("start", 0, "first case to run (earlier ones are generated but skipped)")
 	_ = fs.Parse(os.Args[2:])
 	w := bufio.NewWriterSize(os.Stdout, 1<<20)
 	defer w.Flush()
@@ -31,31 +33,64 @@ func main() {
 		rng := rand.New(rand.NewSource(*seed))
 		for i := 0; i < *n; i++ {
 			cs := rng.Int63()
-			c := genCase(rand.New(rand.NewSource(cs)), i, cs, pf)
-			for _, l := range runCase(c) {
-				fmt.Fprintln(w, l)
+			if i < *start {
+				continue
 			}
+			c := genCase(rand.New(rand.NewSource(cs)), i, cs, pf)
+			emit(w, runCase(c))
 		}
+	case "edit":
+		rng := rand.New(rand.NewSource(*seed))
+		for i := 0; i < *n; i++ {
+			cs := rng.Int63()
+			if i < *start {
+				continue
+			}
+			c := genEditCase(rand.New(rand.NewSource(cs)), i, cs)
+			emit(w, runEditPair(c))
+		}
+	case "editall":
+		allEditCases(*n, func(c *CaseDesc) {
+			if c.N < *start {
+				return
+			}
+			emit(w, runEditPair(c))
+		})
 	case "file":
 		cases, err := parseCases(fs.Arg(0))
 		if err != nil {
 			fmt.Fprintln(os.Stderr, err)
 			os.Exit(2)
 		}
-		for _, c := range cases {
-			for _, l := range runCase(c) {
-				fmt.Fprintln(w, l)
+		for i, c := range cases {
+			if i < *start {
+				continue
 			}
+			emit(w, runCase(c))
 		}
 	case "one":
 		pf := profiles[*profile]
 		c := genCase(rand.New(rand.NewSource(*seed)), 0, *seed, pf)
-		for _, l := range runCase(c) {
-			fmt.Fprintln(w, l)
-		}
+		emit(w, runCase(c))
 	default:
 		fmt.Fprintln(os.Stderr, "unknown command", cmd)
 		os.Exit(2)
+	}
+}
+
+// emit prints a case's records.  A hang leaves a goroutine spinning inside nject that cannot be
+// stopped: the process flushes and exits with status 3 and the driver restarts it after that case.
+func emit(w *bufio.Writer, lines []string) {
+	hung := false
+	for _, l := range lines {
+		fmt.Fprintln(w, l)
+		if strings.HasPrefix(l, "bind hang") || l == "t hang" {
+			hung = true
+		}
+	}
+	if hung {
+		w.Flush()
+		os.Exit(3)
 	}
 }
 
